@@ -412,7 +412,7 @@ def rand_docs(rng, universe):
             except Exception:  # noqa: BLE001
                 continue
             ops.append({"k": "xml_parse", "doc": xml, "c": c})
-            ops.append({"k": "xml_parse", "doc": xml, "c": None})
+            ops.append({"k": "xml_parse", "doc": xml, "c": None, "root": c})
             # the same document with unknown content, read leniently and strictly through the
             # same instances (a seeded change remembered "unknown" names on the shared metadata
             # during a lenient parse and skipped them in later strict parses)
@@ -425,8 +425,20 @@ def rand_docs(rng, universe):
                 for strict in (False, True):
                     ops.append({"k": "json_parse", "doc": injj, "c": c, "cfg": {"fail_on_unknown_properties": strict}})
             ops.append({"k": "json_parse", "doc": js, "c": c})
-            ops.append({"k": "json_parse_any", "doc": js, "c": None})
+            ops.append({"k": "json_parse_any", "doc": js, "c": None, "root": c})
             ops.append({"k": "dict_decode", "doc": js, "c": c})
+        # documents rooted at an unbuildable indexed class (fresh: XmlContextError on use; after a
+        # class-less JSON parse has evicted the class: no class found, or a buildable namesake)
+        for i, d in enumerate(universe):
+            if d["model"] and chain_bad(universe, i) and ops:
+                tq = realm.context().get_builder().build_class_meta(realm.cls(i)).target_qname
+                if tq:
+                    if tq.startswith("{"):
+                        uri, _, local = tq[1:].partition("}")
+                        doc = f'<p:{local} xmlns:p="{uri}"/>'
+                    else:
+                        doc = f"<{tq}/>"
+                    ops.append({"k": "xml_parse", "doc": doc, "c": None, "root": i})
         if ops:
             ops.append({"k": "xml_parse", "doc": "<nope", "c": roots[0]})
             ops.append({"k": "xml_parse", "doc": "<unknown-root/>", "c": None})
@@ -436,3 +448,38 @@ def rand_docs(rng, universe):
     finally:
         realm.close()
     return ops
+
+
+def op_max_class(op):
+    """the largest class id a document-level op needs to exist"""
+    m = -1
+    if op.get("c") is not None:
+        m = max(m, op["c"])
+    if op.get("root") is not None:
+        m = max(m, op["root"])
+    for t in op.get("toks", ()):
+        if t[0] == "enter":
+            m = max(m, t[2])
+    return m
+
+
+def rand_worlds(rng, n, length, fixed=False):
+    """A sequence of worlds for a document-level history: classes (and modules) may appear
+    between the calls, with or without a change of len(sys.modules)."""
+    if fixed:
+        return [W(n, 0) for _ in range(length)]
+    mode = rng.choice(["grow", "grow-unstamped", "grow-unstamped", "shrink"])
+    loaded = rng.randint(1, n)
+    mods = n if mode == "shrink" else 0
+    out = []
+    for _ in range(length):
+        if rng.random() < 0.5 and loaded < n:
+            loaded += 1
+            if mode == "grow":
+                mods += 1
+            elif mode == "shrink":
+                mods = max(0, mods - 1)
+            elif rng.random() < 0.3:
+                mods += 1
+        out.append(W(loaded, mods))
+    return out
